@@ -594,6 +594,28 @@ def r_announced_sizes(r, prog):
     r.floor(3, 'reservations sized from the input')
 
 
+def r_element_count_is_announced(r, prog):
+    """A collection decoder reads exactly as many elements as the input announces: the loop runs over 0..announced, and the announced number is
+    the decoded size itself - not a clamped, rounded or otherwise adjusted copy (clamping belongs to the *reservation* only: an input that
+    announces more elements than it holds must run out of bytes and fail, not be accepted with fewer)."""
+    n = 0
+    for a in aggregates(prog, 'core::ops::range::Range', crates=('slice_codec',)):
+        f = a['fn']
+        if not f.path.startswith('slice_codec::decoding::<impl slice_codec::decode_from::DecodeFrom for') or f.blocks[a['bb']].get('cleanup'):
+            continue
+        n += 1
+        rng = vexpr(f, {'cp': a['lhs']})
+        if re.match(r'^Range::Range\{start:0,end:decode_(varuint|size)\(arg1\) as Continue\.0\}$', rng):
+            r.ok('%s reads 0..announced elements' % re.sub(r'^.*DecodeFrom for ', '', f.path).split('>::')[0])
+        else:
+            r.finding('element-count-not-announced:%s' % re.sub(r'^.*DecodeFrom for ', '', f.path).split('>::')[0], a['span'],
+                      '%s iterates over %s: the number of elements read must be the announced size itself' % (f.path, rng[:160]))
+    # collecting from an iterator instead of a counted loop is the same obligation: the adapter must run over 0..announced
+    if n < 3:
+        raise AnchorMissing('counted loops of the collection decoders (found %d)' % n)
+    r.floor(3)
+
+
 # --------------------------------------------------------------------------- C10 tables
 INT_WIDTH = {'i8': 8, 'u8': 8, 'i16': 16, 'u16': 16, 'i32': 32, 'u32': 32, 'i64': 64, 'u64': 64}
 
